@@ -194,8 +194,9 @@ RULES = {
            "they produce different bytes) or a history with at least one rate switch",
     "C14": "case = one primitive call (or one ReedSolomonEncoder/Decoder round trip) repeated under all four reported "
            "subsets of {avx2, ssse3}; the (ISA, primitive) counter delta of hook H2 is compared with the specification "
-           "(exactly one hit on the best reported ISA for a direct call; nothing outside the best ISA and every used "
-           "primitive on it for a codec round); results must agree across subsets",
+           "(nothing outside the best reported ISA; every entry point the explicitly chosen best engine goes through "
+           "is gone through); results must agree across subsets; stage huge-working-set-trace does the same for "
+           "transforms and codec rounds over 64-160 MiB",
     "C15": "tables: every entry of exp, log, skew, log_walsh, mul16, mul128 against its definition; mul: all 65536 "
            "symbols for a set of multipliers (quick 1024 incl. 0, 1, 65534, 65535; thorough all 65536) per engine; "
            "fft/ifft against direct polynomial evaluation in the LCH basis at chunk-aligned offsets (all points for "
@@ -205,13 +206,17 @@ RULES = {
            "a role that first-touches a different subset of the lazy tables (incl. objects handed to another thread "
            "mid-round); digests compared with a sequential reference; H3 event log checked for exactly-once, "
            "and end-before-use; evaluations = role executions compared; the evidence lists the "
-           "distinct initialisation interleavings observed",
+           "distinct initialisation interleavings observed; in-process stages: migration (decoders / encoders "
+           "hopping between 6 threads mid-round, every result checked) and churn (12 threads construct / reset / "
+           "hand over / drop codecs with working spaces of 4 KiB - 8 MiB as fast as they can, checked round trips; "
+           "any panic, error or wrong result is a violation)",
     "C17": "case = history (new, rounds, resets, hand-over of the working space to another rate/engine) executed at "
            "shard sizes S and 8S under a counting allocator; rounds and steps that need no more working space than is "
-           "held (need calibrated from the crate's own fresh constructions) must not allocate shard-proportional "
+           "held (positions calibrated from the crate's own fresh constructions, blocks per shard = ceil(S/64)) must "
+           "not allocate shard-proportional "
            "memory; results of consecutive rounds of one configuration must live at the same address; evaluations = "
            "steps measured; non-trivial = history with a non-growing step and more than one round",
-    "C13": "case = (config, rate, api, size, two data sets, scalar), all encodes of a case on fresh encoders or (half) as consecutive rounds of one encoder object: additivity, zero and homogeneity are checked; "
+    "C13": "case = (config, rate, api, size, two data sets, scalar), all encodes of a case on fresh encoders or (half) as consecutive rounds of one encoder object; b is a small delta in a quarter of the cases: additivity, zero and homogeneity are checked; "
            "evaluations = relations checked",
 }
 
